@@ -172,11 +172,12 @@ def cfault(f: tuple) -> str:
 
 
 def csrc(b: Any) -> str:
+    """The configuration value as written by the operator -> Retry.src_of (BScalar | BList | BEndless)."""
     if b['kind'] == 'endless':
-        return f"(src_fun (fun i => {cq.cZ(b['a'])} + {cq.cZ(b['b'])} * Z.of_nat i))"
+        return f"(src_of (BEndless (fun i => {cq.cZ(b['a'])} + {cq.cZ(b['b'])} * Z.of_nat i)))"
     if b['kind'] == 'scalar':
-        return f"(src_list [{cq.cZ(b['v'])}])"
-    return f"(src_list {cq.clist(cq.cZ(x) for x in b['v'])})"
+        return f"(src_of (BScalar {cq.cZ(b['v'])}))"
+    return f"(src_of (BList {cq.clist(cq.cZ(x) for x in b['v'])}))"
 
 
 def backoffs_value(b: Any) -> Any:
@@ -427,6 +428,24 @@ def request_case(ctx: fw.Ctx, case: dict, D: list) -> None:
     D.append(fw.Case(f'request_obs_eqb ({term}) {exp}', {**case, 'observed_times': ts, 'observed': kind}, diag=term))
 
 
+def fault_class_cases(ctx: fw.Ctx, faults: list[tuple]) -> list:
+    """Every distinct fault, alone against one backoff: is it followed by a second attempt (Retry.transient),
+    does it leave request() as an authentication failure (Retry.is_reauth)?  The harness's own list of the
+    property's transient failures must agree with both the code and the model."""
+    D = []
+    for f in faults:
+        out = run_request([f], {'kind': 'tuple', 'v': [1]}, False)
+        retried = len(out['times']) == 2
+        reauth = classify_exc(out['exc']) == 'reauth'
+        if retried != is_transient(f) and not (f[0] == 'ok' or (f[0] == 'status' and f[1] < 400)):
+            ctx.fail('the set of retried failures is not (network errors, 5xx, 403, 429)', {'fault': list(f)},
+                     observed={'retried': retried, 'transient_by_the_property': is_transient(f)}, sig='retried-set')
+        ctx.count('fault_class', 'retried' if retried else 'reauth' if reauth else 'ok' if out['exc'] is None else 'escalated')
+        D.append(fw.Case(f"Bool.eqb (transient {cfault(f)}) {cq.cbool(retried)} && Bool.eqb (is_reauth {cfault(f)}) {cq.cbool(reauth)}",
+                         {'fault': list(f), 'retried': retried, 'reauth': reauth}, diag=f"(transient {cfault(f)}, is_reauth {cfault(f)})"))
+    return D
+
+
 def gen_request_case(r: Any) -> dict:
     n = r.choice([0, 1, 1, 2, 2, 3, 3, 4, 5, 6, 8, 10, 12])
     ra5 = r.random() < 0.3
@@ -609,9 +628,9 @@ def run_throttle(d: dict, eps: list[dict], esc_kind: str = 'base') -> list[dict]
             wk1 = None
             if e['wk1'] is not None and thr.active_until is not None and not e['ev']:
                 remaining = thr.active_until - entry
-                if e['wk1'] >= 0:      # early: strictly inside the sleep
-                    if remaining >= 2:
-                        wk1 = 1 + e['wk1'] % (int(remaining) - 1)
+                if e['wk1'] >= 0:      # early: inside the sleep, possibly at its very start
+                    if remaining >= 1:
+                        wk1 = e['wk1'] % int(remaining)
                 else:                  # late: after the sleep would be over anyway
                     wk1 = int(max(remaining, 0)) + 1
             if wk1 is not None:
@@ -624,6 +643,8 @@ def run_throttle(d: dict, eps: list[dict], esc_kind: str = 'base') -> list[dict]
                     rec['body_start'] = loop.time()
                     for h in handles:
                         h.cancel()
+                    if e.get('evb'):
+                        ev.set()           # a new event arrives while the block runs
                     if e['wk2'] is not None:
                         handles.append(loop.call_later(e['dur'] + e['wk2'], ev.set))
                     if e['dur']:
@@ -670,7 +691,8 @@ def gen_throttle_case(r: Any) -> dict:
         eps.append({'gap': r.choice([0, 0, 1, 3, 7, 30]), 'ev': r.random() < 0.1,
                     'wk1': r.choice([None, None, r.randrange(50), -1]),
                     'body': body, 'dur': r.choice([0, 0, 1, 5]),
-                    'wk2': r.choice([None, None, None, 1, 3, 5, 9, 31])})
+                    'evb': r.random() < 0.1,
+                    'wk2': r.choice([None, None, None, 0, 1, 3, 5, 9, 31])})
     return {'delays': d, 'eps': eps}
 
 
@@ -721,7 +743,7 @@ def throttle_case(ctx: fw.Ctx, case: dict, D: list) -> None:
         es = []
         for e, o in zip(eps, obs):
             ep = (f"{{| e_ev := {cq.cbool(e['ev'])}; e_wk1 := {coz(o['wk1'])}; e_body := {dict(ok='BOk', err='BErr', esc='BEsc')[e['body']]}; "
-                  f"e_dur := {cq.cZ(e['dur'])}; e_wk2 := {coz(e['wk2'])} |}}")
+                  f"e_dur := {cq.cZ(e['dur'])}; e_evb := {cq.cbool(bool(e.get('evb')))}; e_wk2 := {coz(e['wk2'])} |}}")
             es.append(f"({cq.cZ(_int(o['entry']))}, {ep})")
         exp = cq.clist(
             f"({cq.cbool(bool(o['should']))}, {cq.cbool(o['escalated'])}, {cq.cZ(_int(o['exit']))}, {cq.cbool(o['has_source'])}, "
@@ -1202,7 +1224,7 @@ def run_proc(case: dict, with_faults: bool) -> dict:
     loop = vloop.new_loop()
     server = Server()
     bodies_: dict[str, dict] = {}
-    out: dict[str, Any] = {'handled': [], 'fatal': [], 'returns': [], 'throttler': [], 'cycles': []}
+    out: dict[str, Any] = {'handled': [], 'fatal': [], 'returns': [], 'throttler': [], 'cycles': [], 'deliveries': {}}
     cur_cycle: dict[str, dict] = {}
 
     def fault_for(rec: dict) -> Any:
@@ -1210,8 +1232,9 @@ def run_proc(case: dict, with_faults: bool) -> dict:
         rec['name'] = name
         if name in cur_cycle:
             cur_cycle[name]['requests'].append(rec)
-        if with_faults and name == 'a':
-            for t0, t1, kind in case['windows']:
+        wins = (case['windows'] if with_faults else []) if name == 'a' else case.get('windows_' + name, [])
+        if True:
+            for t0, t1, kind in wins:
                 if t0 <= rec['t'] < t1:
                     return {'500': ('status', 500, None, None), '409': ('status', 409, None, None), 'conn': ('conn',),
                             'timeout': ('timeout',), 'other': ('other',), '429': ('status', 429, 3, None),
@@ -1260,7 +1283,8 @@ def run_proc(case: dict, with_faults: bool) -> dict:
                     return
                 pressures[n].clear()
                 t_in = loop.time()
-                cyc = {'name': n, 't_in': t_in, 'handled_at': None, 'requests': [], 'seq': ev['object']['spec']['seq']}
+                cyc = {'name': n, 't_in': t_in, 'handled_at': None, 'requests': [], 'seq': ev['object']['spec']['seq'],
+                       'fatal': False}
                 cur_cycle[n] = cyc
                 out['cycles'].append(cyc)
                 try:
@@ -1271,32 +1295,38 @@ def run_proc(case: dict, with_faults: bool) -> dict:
                     out['returns'].append({'name': n, 't_in': t_in, 't_out': loop.time(), 'rv': rv})
                 except BaseException as e:  # noqa
                     out['fatal'].append({'name': n, 't': loop.time(), 'exc': repr(e)})
+                    cyc['fatal'] = True
                     if isinstance(e, asyncio.CancelledError):
                         raise
                 cyc['t_out'] = loop.time()
                 mem = memories._items.get(f'uid-{n}')
                 if mem is not None:
                     thr = mem.error_throttler
-                    out['throttler'].append({'name': n, 't': loop.time(), 'until': thr.active_until, 'last': thr.last_used_delay,
-                                             'has_source': thr.source_of_delays is not None})
+                    cyc['thr'] = {'name': n, 't': loop.time(), 'until': thr.active_until, 'last': thr.last_used_delay,
+                                  'has_source': thr.source_of_delays is not None}
+                    out['throttler'].append(cyc['thr'])
 
         async def deliver() -> None:
             t0 = 0
             seq = 0
-            for t, n in case['events']:
+            for i, (t, n) in enumerate(case['events']):
+                # every delivery gets its own fraction of a second: no two instants of different origin coincide
+                t = t + (i + 1) / 64
                 await asyncio.sleep(max(0, t - t0))
                 t0 = max(t0, t)
                 seq += 1
+                out['deliveries'].setdefault(n, []).append(loop.time())
                 bodies_[n] = {**bodies_[n], 'spec': {'seq': seq}}
                 queues[n].put_nowait({'type': 'MODIFIED', 'object': json.loads(json.dumps(bodies_[n]))})
                 pressures[n].set()
 
         ws = [asyncio.create_task(worker(n), name=f'worker-{n}') for n in names]
         await deliver()
-        await asyncio.sleep(case.get('tail', 400))
+        await asyncio.sleep(case.get('tail', 400) + 1 / 128)
         for n in names:
             queues[n].put_nowait(None)
             pressures[n].set()
+            out['deliveries'].setdefault(n, []).append(loop.time())
         done, pending = await asyncio.wait(ws, timeout=2000)
         out['stuck_workers'] = sorted(t.get_name() for t in pending)
         for t in pending:
@@ -1327,9 +1357,10 @@ def gen_proc_case(r: Any) -> dict:
         d = {'kind': 'tuple', 'v': [r.choice([2, 4, 6, 10, 20]) for _ in range(r.choice([1, 2, 3]))]}
     events = []
     t = 0
+    names = r.choice([['a', 'a', 'b'], ['a', 'a', 'b'], ['a', 'b', 'c'], ['a', 'a', 'b', 'b', 'c']])
     for _ in range(r.choice([3, 5, 8, 12, 16])):
         t += r.choice([0, 1, 1, 2, 3, 5, 9, 15])
-        events.append([t, r.choice(['a', 'a', 'b'])])
+        events.append([t, r.choice(names)])
     if not any(n == 'b' for _, n in events):
         events.append([t + 1, 'b'])
     windows = []
@@ -1339,12 +1370,72 @@ def gen_proc_case(r: Any) -> dict:
         w1 = w0 + r.choice([1, 4, 10, 30, 80])
         windows.append([w0, w1, r.choice(['500', '500', 'conn', 'timeout', '409', 'other', '429', '503ra'])])
         w0 = w1 + r.choice([5, 20])
-    return {'delays': d, 'backoffs': r.choice([[], [1], [1, 2]]), 'events': events, 'windows': windows, 'tail': 400}
+    case = {'delays': d, 'backoffs': r.choice([[], [1], [1, 2]]), 'events': events, 'windows': windows, 'tail': 400}
+    if r.random() < 0.35:       # a second erroring object, in both runs: its pauses interleave with those of `a`
+        b0 = r.choice([0, 2, 7])
+        case['windows_b'] = [[b0, b0 + r.choice([3, 12, 40]), r.choice(['500', 'conn', '409'])]]
+    return case
 
 
-def proc_case(ctx: fw.Ctx, case: dict) -> None:
+def proc_model_case(ctx: fw.Ctx, case: dict, run: dict, D: list, label: str) -> None:
+    """The cycles of the real process_resource_event (all objects, in the order they started) against
+    Throttle.wrun: time unit 1/128 s."""
+    def q(x: float) -> int:
+        y = x * 128
+        if abs(y - round(y)) > 1e-6:
+            raise ValueError(x)
+        return int(round(y))
+    d = case['delays']
+    names = sorted({c['name'] for c in run['cycles']})
+    uid = {n: i for i, n in enumerate(names)}
+    evs, exp = [], []
+    try:
+        for c in run['cycles']:
+            if 't_out' not in c or 'thr' not in c:
+                continue
+            n = c['name']
+            sets = sorted(x for x in run['deliveries'].get(n, []) if x > c['t_in'])
+            wk1 = q(sets[0] - c['t_in']) if sets else None
+            if c['handled_at'] is not None:
+                start = c['handled_at']
+                body_end = c['requests'][-1]['t'] if c['requests'] else start
+                body = 'BErr' if (c['requests'] and c['requests'][-1]['fault'] != 'ok') else 'BOk'
+                evb = any(c['t_in'] < x <= body_end for x in sets)
+                later = [x for x in sets if x > body_end]
+                wk2 = q(later[0] - body_end) if later else None
+                dur = q(body_end - start)
+            else:
+                wins = case['windows'] if (n == 'a' and label == 'faulty') else case.get('windows_' + n, []) if n != 'a' else []
+                body = 'BErr' if any(t0 <= c['t_out'] < t1 for t0, t1, _ in wins) else 'BOk'   # what it would have done
+                evb, wk2, dur = False, None, 0
+            ctx.count('proc_cycle', f"{'run' if c['handled_at'] is not None else 'skip'}/{body}"
+                                    + ('/woken' if c['thr']['until'] is not None and c['handled_at'] is not None else ''))
+            ep = (f"{{| e_ev := false; e_wk1 := {coz(wk1)}; e_body := {body}; e_dur := {cq.cZ(dur)}; "
+                  f"e_evb := {cq.cbool(evb)}; e_wk2 := {coz(wk2)} |}}")
+            evs.append(f"({uid[n]}%nat, {cq.cZ(q(c['t_in']))}, {ep})")
+            th = c['thr']
+            exp.append(f"({uid[n]}%nat, ({cq.cbool(c['handled_at'] is not None)}, {cq.cbool(c['fatal'])}, {cq.cZ(q(c['t_out']))}, "
+                       f"{cq.cbool(th['has_source'])}, {coz(None if th['last'] is None else q(th['last']))}, "
+                       f"{coz(None if th['until'] is None else q(th['until']))}))")
+    except ValueError as x:
+        ctx.correspondence_break('D:proc', {'detail': f'time not on the 1/128 s grid: {x}', 'case': case})
+        return
+    if d['kind'] == 'endless':
+        dl = f"(dl_fun (fun i => {cq.cZ(128 * d['a'])} + {cq.cZ(128 * d['b'])} * Z.of_nat i))"
+    else:
+        dl = f"(dl_list {cq.clist(cq.cZ(128 * x) for x in d['v'])})"
+    term = f"wrun_obs {dl} {cq.clist(evs)}"
+    D.append(fw.Case(f"wobs_list_eqb ({term}) {cq.clist(exp)}", {**case, 'run': label, 'cycles': len(evs)}, diag=term))
+    ctx.count('proc_objects', str(len(names)))
+    ctx.cov['traces_validated_against_impl'] += 1
+
+
+def proc_case(ctx: fw.Ctx, case: dict, D: list | None = None) -> None:
     faulty = run_proc(case, True)
     clean = run_proc(case, False)
+    if D is not None:
+        proc_model_case(ctx, case, faulty, D, 'faulty')
+        proc_model_case(ctx, case, clean, D, 'clean')
     d = case['delays']
     ctx.count('proc_delays', d['kind'] + ('-empty' if d.get('v') == [] else ''))
     # ---- never fatal ----
@@ -1436,6 +1527,8 @@ def run(ctx: fw.Ctx) -> int:
         request_case(ctx, c, D_req)
         ctx.sample({'request': c}, limit=2)
     ctx.differential('request', HEADER, D_req, shard=250)
+    seen_faults = sorted({tuple(f) for c in D_req for f in c.data['script']}, key=repr)
+    ctx.differential('fault_class', HEADER, fault_class_cases(ctx, seen_faults), shard=250)
 
     # ---------------- @authenticated around api.request ----------------
     D_call: list[fw.Case] = []
@@ -1472,13 +1565,15 @@ def run(ctx: fw.Ctx) -> int:
     ctx.differential('vault_trace', HEADER, T_vault, shard=100)
 
     # ---------------- process_resource_event, two objects ----------------
+    D_proc: list[fw.Case] = []
     for c in corpus:
         if c.get('kind') == 'proc':
-            proc_case(ctx, c['case'])
+            proc_case(ctx, c['case'], D_proc)
     for _ in range(ctx.scale(300, 2500)):
         c = gen_proc_case(r)
-        proc_case(ctx, c)
+        proc_case(ctx, c, D_proc)
         ctx.sample({'proc': c}, limit=6)
+    ctx.differential('proc', HEADER, D_proc, shard=100)
 
     return ctx.finish(RULE, level_note=['aiohttp / SSL internals are replaced by a fault-scripted fake session'])
 
